@@ -625,10 +625,11 @@ def put_allocations(draw, d, v, consumer=None, defect=None, clear=False):
 
 
 def post_allocations(draw, d, v, defect=None, consumers=None):
+    chosen = bool(consumers)
     consumers = consumers or draw(st.lists(st.sampled_from(CONS), min_size=1,
                                            max_size=4, unique=True))
     labels = []
-    if defect is None and draw(st.integers(0, 9)) == 9:
+    if defect is None and not chosen and draw(st.integers(0, 9)) == 9:
         # a consumer key in a spelling the schema admits but that is not the
         # canonical one (upper case, or 36 hex digits without dashes): for
         # placement simply another consumer; not the first entry
